@@ -24,24 +24,33 @@ from ._aggb import dt, eps_of, fail, np64, ok
 RULE = ("matrices m x n from three families (gauss, small integers with ties/duplicate rows, clustered honest rows) at "
         "scales 1e-6..1e6, float64 and float32, optionally with a chosen subset of rows replaced by corrupted values "
         "(huge: +-1e12 x scale, mixed magnitudes 1e-3..1e12 x scale, colluding identical rows, values inside the honest "
-        "range); every admissible b resp. (f,k) for the row count. distinct = (clause, m, n, parameters, family, "
+        "range); every admissible b resp. (f,k) for the row count; + the 'large' family: 26..40 rows (beyond the row "
+        "counts at which library kernels switch algorithm, e.g. torch.cdist's matmul formulation above 25 rows), up to "
+        "64 columns, honest rows = a common offset + a spread with offset/spread up to 3e4 (float32) / 1e8 (float64) - "
+        "distances are badly conditioned unless computed from differences - and f corrupted rows only 5 spreads away "
+        "('near') or huge, k in {1, m-f, random}; the oracle scores are brute-force float64 on the exact input "
+        "values. distinct = (clause, m, n, parameters, family, "
         "corruption subset and kind, dtype, seed). non-trivial: tm_value b>=1 and m-2b>=1 with a non-constant column; "
         "tm_robust >=1 corrupted row; krum_value k<m and the k-th and (k+1)-th smallest oracle scores differ by more "
         "than the rounding tolerance (selection unique); reject: every grid point")
-BOUNDS = "m <= 9 rows (reject grid: 0..9), n <= 6 columns, b <= 4, f <= 6, k <= 9, corruption <= 1e12 x honest scale"
+BOUNDS = ("m <= 9 rows (reject grid: 0..9), n <= 6 columns, b <= 4, f <= 6, k <= 9, corruption <= 1e12 x honest scale; large "
+          "family: m <= 40, n <= 64, f <= 8, offset/spread <= 3e4 (float32), 1e8 (float64)")
 EXHAUSTIVE = ("thorough: all admissible b (m<=9) and (f,k) (m<=9); all subsets of <= b corrupted rows for every "
               "(m,b) with m<=9; the full reject grid m in 0..9 x b in 0..5 resp. f in 0..7 x k in 1..10")
 
-FAMILIES = ["gauss", "ints", "cluster"]
-CORRUPT = ["huge", "mixed", "collude", "inside"]
+FAMILIES = ["gauss", "ints", "cluster"]  # + "offset" (large family only)
+CORRUPT = ["huge", "mixed", "collude", "inside"]  # + "near" (large family only)
+RATIOS = {"float32": [1e2, 1e3, 3e4], "float64": [1e4, 1e6, 1e8]}
 
 
 # ------------------------------------------------------------------------------------------------ generation
 
 
-def honest_matrix(family, m, n, seed, scale):
+def honest_matrix(family, m, n, seed, scale, ratio=1.0):
     rng = np.random.default_rng(seed)
-    if family == "gauss":
+    if family == "offset":  # a large common component (ratio x the spread of the rows around it)
+        H = rng.standard_normal((1, n)) * ratio + rng.standard_normal((m, n))
+    elif family == "gauss":
         H = rng.standard_normal((m, n))
     elif family == "ints":
         H = rng.integers(-2, 3, size=(m, n)).astype(np.float64)
@@ -73,6 +82,11 @@ def corrupt(H, rows, kind, seed, scale):
         lo, hi = H.min(axis=0), H.max(axis=0)
         for r in rows:
             J[r] = lo + (hi - lo) * rng.uniform(0, 1, size=n)
+    elif kind == "near":  # only 5 honest spreads away from the honest centre: clearly worse scores, same magnitude
+        c = H.mean(axis=0)
+        sd = float((H - c).std()) or scale
+        for r in rows:
+            J[r] = c + 5.0 * sd * rng.standard_normal(n)
     else:
         raise KeyError(kind)
     return J
@@ -80,7 +94,7 @@ def corrupt(H, rows, kind, seed, scale):
 
 def _matrix(case):
     dtype = dt(case["dtype"])
-    H = honest_matrix(case["family"], case["m"], case["n"], case["seed"], case["scale"])
+    H = honest_matrix(case["family"], case["m"], case["n"], case["seed"], case["scale"], case.get("ratio", 1.0))
     J = corrupt(H, case.get("rows", []), case.get("ckind", "huge"), case["seed"], case["scale"])
     # the honest part as the aggregator sees it (after the cast)
     return torch.tensor(J, dtype=torch.float64).to(dtype), dtype
@@ -136,6 +150,34 @@ def cases(tier, seed, focus=None):
                 c["rows"] = sorted(rng.sample(range(m), rng.randint(1, f)))
                 c["ckind"] = rng.choice(CORRUPT)
             out.append(c)
+    # ---- large family (own random stream: the cases above are unchanged)
+    rng_l = random.Random(16160 + seed)
+    for i in range(60 if not thorough else 1500):
+        r = rng_l
+        m = r.choice([26, 27, 30, 33, 40])
+        f = r.randint(1, 8)
+        k = [1, m - f, r.randint(1, m)][i % 3]
+        dtype = "float32" if i % 3 != 2 else "float64"
+        c = {"m": m, "n": r.choice([8, 32, 64]), "family": "offset" if i % 5 else r.choice(FAMILIES),
+             "seed": r.randrange(10**9), "scale": _scale(r, dtype), "dtype": dtype, "ratio": r.choice(RATIOS[dtype]),
+             "clause": "krum_value", "f": f, "k": k}
+        if i % 4:
+            c["rows"] = sorted(r.sample(range(m), r.randint(1, f)))
+            c["ckind"] = r.choice(["near", "near", "huge", "inside"])
+        out.append(c)
+    for i in range(12 if not thorough else 200):
+        r = rng_l
+        m = r.choice([26, 30, 33, 40])
+        b = r.randint(0, (m - 1) // 2)
+        dtype = r.choice(["float32", "float64"])
+        c = {"m": m, "n": r.choice([8, 64]), "family": "offset", "seed": r.randrange(10**9), "scale": _scale(r, dtype),
+             "dtype": dtype, "ratio": r.choice(RATIOS[dtype]), "clause": "tm_value" if i % 2 else "tm_robust", "b": b}
+        if b >= 1:
+            c["rows"] = sorted(r.sample(range(m), r.randint(1, b)))
+            c["ckind"] = r.choice(["near", "huge", "mixed"])
+        elif c["clause"] == "tm_robust":
+            c["rows"] = []
+        out.append(c)
     # ---- reject grid
     grid = [{"clause": "reject", "agg": "TrimmedMean", "b": b, "m": m, "n": n}
             for m in range(0, 10) for b in range(0, 6) for n in (1, 3)]
